@@ -3,6 +3,7 @@
   Only property theorems and their non-vacuity examples live here.
 -/
 import Bita.Proofs.Schedule
+import Bita.Proofs.ScheduleUnordered
 import Bita.Proofs.ChunkStream
 import Bita.Proofs.Writer
 
@@ -75,5 +76,28 @@ example :
 /-- The library writer flushes its temp file before reading it back (read from api/compress.rs on
 every run; F16 repair), as the command line writer does (`Gen.cliTempFlushedBeforeReturn`). -/
 theorem lib_temp_file_flushed_fact : Gen.libTempFlushedBeforeRewind = true := by decide
+
+/-- **Why the combinator is an obligation.**  The model knows both stream combinators.  Under the
+other one (`buffer_unordered`, the `else` branch of `stageRun`) a drained stage still emits every
+item exactly once, under every schedule - nothing is lost or duplicated - and never holds more than
+`n` tasks, but only as a *permutation* of its input: the order follows the schedule (witness below),
+and with it the archive bytes.  The determinism theorem above therefore rests on the `buffered`
+fact read from the source, not on a property every combinator has. -/
+theorem unordered_stage_emits_each_item_once {α : Type} (comb : String) (hc : comb ≠ "buffered")
+    (n : Nat) (xs : List α) (sched : List SchedEv)
+    (hi : (stageRun comb n xs sched).input = []) (hf : (stageRun comb n xs sched).inflight = []) :
+    List.Perm (stageRun comb n xs sched).out xs := by
+  have h : stageRun comb n xs sched = sched.foldl (fun s e => s.stepUnordered n e) ⟨xs, [], []⟩ := by
+    simp only [stageRun, hc, if_false]
+  exact unordered_run_complete n xs sched _ h hi hf
+
+theorem unordered_stage_holds_at_most_n {α : Type} (n : Nat) (s : BufSt α) (e : SchedEv)
+    (h : s.inflight.length ≤ n) : (s.stepUnordered n e).inflight.length ≤ n :=
+  stepUnordered_inflight_le n s e h
+
+/-- the same two items, two schedules, two orders -/
+example : (stageRun "buffer_unordered" 2 [1, 2] [.poll, .finish 1, .poll, .finish 0, .poll]).out = [2, 1] ∧
+    (stageRun "buffer_unordered" 2 [1, 2] [.poll, .finish 0, .poll, .finish 0, .poll]).out = [1, 2] ∧
+    (stageRun "buffered" 2 [1, 2] [.poll, .finish 1, .poll, .finish 0, .poll, .poll]).out = [1, 2] := by decide
 
 end Bita.Props.C12
